@@ -149,7 +149,10 @@ Record WK (s : st) (v : N -> N) : Prop := {
   k_truth : forall x, 1 <= x -> x <> lockpg s -> dbc s x = file_h s x \/ (dbc s x = 0 /\ Cov s x);
   k_empty : wpages s = [] -> wal_chk s = [];
   k_pos : forall p q, In (p, q) (wpages s) -> 1 <= p;
-  k_nodup : KeysNoDup (wpages s)
+  k_nodup : KeysNoDup (wpages s);
+  (* a page of the database that is in the log answers from its WAL checksums *)
+  k_in : forall p q, alookup p (wpages s) = Some q -> p <= pageN s -> p <> lockpg s ->
+                     exists l c, alookup p (wal_chk s) = Some l /\ last_or0 l = Some c
 }.
 
 Definition wf_wal2 (s : st) (frames : list (N * pg)) (commit : N) : Prop :=
@@ -201,6 +204,14 @@ Proof.
     + apply last_versions_in in H1. apply (Hpos p q H1).
     + apply (k_pos0 p q H1).
   - rewrite Hwp. apply merge_latest_keys. exact k_nodup0.
+  - intros p q Hl Hle Hnl. rewrite Hlook in Hl. rewrite C3 in Hle. rewrite C8 in Hnl.
+    rewrite C6, (alookup_append_chk _ _ _ Hkn). rewrite (T1 p) by lia. rewrite tx_new_lookup.
+    destruct (N.eqb_spec p (lockpg s)); [contradiction|]. destruct (N.leb_spec p commit); [|lia]. cbn [negb andb].
+    destruct (last_frame p frames) as [q'|] eqn:El; cbn [option_map].
+    + eexists. eexists. split; [reflexivity|apply last_or0_snoc].
+    + apply (k_in0 p q Hl); [|assumption].
+      destruct (N.le_gt_cases p (pageN s)); [assumption|]. destruct (Hg p ltac:(lia) Hnl) as [q2 Hq].
+      apply last_frame_some in Hq. congruence.
 Qed.
 
 (* ---- LiteFS's checkpoint (CheckpointNoLock): the log copied into the file, the file cut to the size of the last commit,
@@ -233,6 +244,7 @@ Proof.
       * reflexivity.
       * intros p q [].
       * constructor.
+      * intros p q Hl. discriminate.
   - assert (Hne : wpages s <> []) by (rewrite Ep; discriminate).
     rewrite <- Ep in H. clear Ep x0 r0. destruct HK.
     set (lastc := snd (wscan s)) in *. pose proof (k_last0 Hne) as Elast.
@@ -284,6 +296,7 @@ Proof.
       * reflexivity.
       * intros p q [].
       * constructor.
+      * intros p q Hl. discriminate.
     + intros p Hp Hnl. change (pageN sf) with lastc in Hp. rewrite Elast in Hp. rewrite Hlk in Hnl. apply (Hd p Hp Hnl).
 Qed.
 
@@ -305,7 +318,7 @@ Proof.
   destruct (i <? lenN (chk_pages s)); [rewrite IH|]; reflexivity.
 Qed.
 Definition jop (o : op) : Prop :=
-  match o with OZeroFill _ _ | OWrite _ _ | OTruncate _ | OCommitJournal _ => True | _ => False end.
+  match o with OZeroFill _ _ | OWrite _ _ | OTruncate _ | OCommitJournal _ | OCommitJournalFail _ => True | _ => False end.
 Lemma jop_wal_file s o s' : jop o -> step s o = (Done, s') -> wal_file s' = wal_file s.
 Proof.
   destruct o; cbn [jop]; try contradiction; intros _ H; cbn [step] in H.
@@ -315,6 +328,7 @@ Proof.
   - destruct (writeable s && (pageN s =? 0) && match dbfile s with [] => true | _ :: _ => false end).
     + unfold op_invalidate_journal in H. inversion H; subst. reflexivity.
     + destruct (commit_journal_fields s commit s' H) as [_ [_ [_ [_ E]]]]. exact E.
+  - inversion H; subst. reflexivity.
   - unfold op_zero_fill in H. inversion H; subst. reflexivity.
 Qed.
 Lemma run_group_wal_file : forall ops s s', Forall jop ops -> run_group s ops = (0, s') -> wal_file s' = wal_file s.
@@ -355,6 +369,7 @@ Proof.
   - intros _. exact Hk.
   - intros p q Hin. rewrite Hp in Hin. destruct Hin.
   - rewrite Hp. constructor.
+  - intros p q Hl. rewrite Hp in Hl. discriminate.
 Qed.
 
 (* ---- histories: WAL commits and checkpoints in any order ---- *)
